@@ -615,7 +615,14 @@ fn case_iter(kv: &Kv) -> String {
             op.apply_to_hook(&mut r).unwrap();
         }
     }
-    let ref_same = cap.ops() == cap2.ops();
+    let mut ref_same = cap.ops() == cap2.ops();
+    // accessors agree with each other: as_tag_tuple = (tag, old_range, new_range)
+    for op in &ops {
+        let (t, o, n) = op.as_tag_tuple();
+        if t != op.tag() || o != op.old_range() || n != op.new_range() {
+            ref_same = false;
+        }
+    }
     // whole-list iteration (AllChangesIter) over the same ops, reached through the public
     // UnifiedDiffHunk::new(ops, diff, ..).iter_changes() on a TextDiff of the items as strings
     let olds: Vec<String> = old.iter().map(|x| x.to_string()).collect();
